@@ -3,6 +3,7 @@
 // function reads; TooNarrow/Result as in render/mod.rs.
 use vstd::prelude::*;
 verus! {
+//@export-begin
 struct TooNarrow;
 type Result<T> = std::result::Result<T, TooNarrow>;
 struct RenderOptions { allow_width_overflow: bool }
@@ -42,5 +43,6 @@ proof fn lemma_overflow_noop(width: usize, prefix: usize, min_width: usize)
             wm_spec(width, true, prefix, min_width).is_some(),                                    //@w @C11
 {}
 
+//@export-end
 } // verus!
 fn main() {}
